@@ -141,6 +141,30 @@ theorem C16_flatSlot_bound (Nu Nv nt i j k : Nat) (hi : i < Nv) (hj : j < Nu) (h
   have h4 : Nu * Nv * nt = nt * (Nv * Nu) := by rw [Nat.mul_comm Nu Nv, Nat.mul_comm]
   omega
 
+/-- the same for ANY way of dealing the pairs to the workers (contiguous chunks, round-robin, …):
+    as long as the workers' lists together are a rearrangement of the pair list, every interleaving
+    reproduces the serial result — the split strategy is free, the partition property is not -/
+theorem C16_any_partition_eq_serial {V : Type} (Nu Nv : Nat) (ws : List (List (Nat × Nat)))
+    (hws : ws.flatten.Perm (pairList Nu Nv)) (kernel : Nat × Nat → V)
+    (init : Nat × Nat → V) (s : List (Nat × Nat)) (h : Interleaving ws s) :
+    runSchedule kernel s init = runSchedule kernel (pairList Nu Nv) init := by
+  have hp : s.Perm (pairList Nu Nv) := (interleaving_perm h).trans hws
+  funext p
+  rw [runSchedule_apply, runSchedule_apply]
+  have : p ∈ s ↔ p ∈ pairList Nu Nv := hp.mem_iff
+  by_cases hm : p ∈ s
+  · rw [if_pos hm, if_pos (this.mp hm)]
+  · rw [if_neg hm, if_neg (fun h' => hm (this.mpr h'))]
+
+/-- conversely a split that loses a pair (as a worker cap computed from the wrong size does) leaves
+    that slot at its initial value under every schedule -/
+theorem C16_lost_pair_not_computed {V : Type} (ws : List (List (Nat × Nat))) (kernel : Nat × Nat → V)
+    (init : Nat × Nat → V) (s : List (Nat × Nat)) (h : Interleaving ws s) (p : Nat × Nat)
+    (hp : p ∉ ws.flatten) : runSchedule kernel s init p = init p := by
+  rw [runSchedule_apply]
+  have : p ∉ s := fun hm => hp ((interleaving_perm h).mem_iff.mp hm)
+  rw [if_neg this]
+
 /-- non-vacuity: 2×3 local matrix, 4 workers -/
 example : threadChunks 2 3 4 = [[(0,0),(1,0)], [(2,0),(0,1)], [(1,1)], [(2,1)]] := by decide
 example : threadChunks 1 1 3 = [[(0,0)], [], []] := by decide
